@@ -103,7 +103,7 @@ def reshape(req):
     try:
         allocation_objects = allocation.create_allocation_list(
             context, allocations, consumers)
-    except webob.exc.HTTPBadRequest:
+    except Exception:
         # Do not leave the consumers auto-created above behind.
         with excutils.save_and_reraise_exception():
             allocation.delete_consumers(new_consumers_created)
